@@ -51,6 +51,7 @@ Step ==
             /\ Report(l, StepPreds(e), scen)
             /\ IF e.st # e.mst \/ e.flag # e.mflag THEN PrintT(<<"DRIFT", l, e.a, scen>>) ELSE TRUE
             /\ UNCHANGED scen
+       [] e.ev = "Crash" -> Report(l, {"C10_nocrash"}, scen) /\ UNCHANGED scen     \* the process died in this scenario (panic in a goroutine of the code)
        [] e.ev = "Diverged" -> PrintT(<<"DIVERGED", l, e.a, scen>>) /\ UNCHANGED scen
        [] e.ev = "End" -> Report(l, EndPreds(e), scen) /\ UNCHANGED scen
        [] e.ev = "UDPStep" ->
